@@ -297,7 +297,7 @@ fn gen_spec(ch: &mut Choices, bad: &mut bool) -> Spec {
             instrs.push((off, gen_si(ch, c.data_align, true, bad)));
         }
         // start addresses and lengths on both sides of the LEB128 sign-bit and size steps
-        let address = ch.pick(&[0x10000u64, 0x10000, 0x2000, 0x40, 0x3f_c000, 0x7fff_0000]) + 0x1000 * k as u64;
+        let address = ch.pick(&[0x10000u64, 0x10000, 0x2000, 0x40, 0x3f_c000, 0x7fff_0000, 0x10000, 0x7fff_8000, 0x9000_0000, 0xffff_0000]) + 0x1000 * k as u64;
         fdes.push(SFde { cie, address, length: ch.pick(&[0u32, 1, 0x100, 0xfff, 0x40, 0x2000, 0x3fff]), lsda: c.lsda_enc.map(|_| ch.pick(&[0x20000u64, 0x2000, 0x40]) + ch.biased(12)), instrs });
     }
     Spec { eh, big, cies, fdes }
